@@ -40,6 +40,12 @@ LINES = [
     ["Hello there."], ["two", "lines"], ["A" * 32], ["B" * 33], ["x" * 40 + " tail"], ["word " * 9 + "end"],
     ["señor está aquí: qué?"], ["ça va 3 ÷ 4 Ñandú"], ["café ó único"], ["one", "two", "three", "four"],
     ["It's 100% \"fine\" (really) - yes/no; a+b=c # & @ <tag>"], ["  padded   inside  "],
+    # long cues: three and four lines of 60-80 characters (five and more rows on the screen)
+    ["the quick brown fox jumps over the lazy dog and keeps running through the field",
+     "while the other animals watch from a safe distance and wonder what is going on",
+     "nobody knows where it is heading or why it is in such a terrible hurry today"],
+    ["one line of seventy characters, more or less, to be wrapped in three rows", "and a second one that is just as long as the first one, give or take a few",
+     "a third", "and the fourth and last line of this rather long caption, wrapped as well"],
 ]
 
 
